@@ -189,8 +189,11 @@ def run_c08(ctx, chk):
                     got[k] = d
             w2 = dict(want)
             if w2.get('reverse') == 'screen-default' and isinstance(got.get('reverse'), bool):
-                # SGR 0 takes reverse from the screen default (the DECSCNM bit, decided on this path)
-                w2['reverse'] = got['reverse']
+                # SGR 0 takes reverse from the screen default: a concrete value is right only when the
+                # DECSCNM bit was decided on this path, and then it must be that bit
+                mf = mode_fact(eng, st, DECSCNM)
+                if mf is not None:
+                    w2['reverse'] = mf
             if got != w2:
                 badl.append('SGR %s: rendition changes %s, documented %s' % (attrs, got, w2))
         n += 1
@@ -708,7 +711,7 @@ def run_c16(ctx, chk):
     prog = ctx.prog
     f = 'screen::Screen::resize'
     body = prog.bodies[f]
-    bad_same, bad_m, bad_d, bad_p, bad_dl = [], [], [], [], []
+    bad_same, bad_m, bad_d, bad_p, bad_dl, bad_c = [], [], [], [], [], []
     n_same = n_change = 0
     for r, st, ret in each_final(sr, f):
         evs = st.event_list()
@@ -731,6 +734,16 @@ def run_c16(ctx, chk):
             bad_d.append(r.label)
         if eng.prove_cmp(st, 'eq', get(eng, st, 'lines'), ln) is not True or eng.prove_cmp(st, 'eq', get(eng, st, 'columns'), cn) is not True:
             bad_m.append('[%s] new geometry not installed' % r.label)
+        # the cursor ends on a cell of the new screen (a pending-wrap position does not survive a resize)
+        xe, ye = get(eng, st, 'cursor', 'x'), get(eng, st, 'cursor', 'y')
+        if not (isinstance(xe, NumV) and eng.prove_cmp(st, 'lt', xe, get(eng, st, 'columns')) is True):
+            okx, wx = plt.prove_rel(eng, st, 'lt', xe, lambda s2: get(eng, s2, 'columns')) if isinstance(xe, NumV) else (False, repr(xe))
+            if not okx:
+                bad_c.append('[%s] cursor column %s is not shown to be < the new width (%s)' % (r.label, g.term(eng, st, xe), wx))
+        if not (isinstance(ye, NumV) and eng.prove_cmp(st, 'lt', ye, get(eng, st, 'lines')) is True):
+            oky, wy = plt.prove_rel(eng, st, 'lt', ye, lambda s2: get(eng, s2, 'lines')) if isinstance(ye, NumV) else (False, repr(ye))
+            if not oky:
+                bad_c.append('[%s] cursor row %s is not shown to be < the new height (%s)' % (r.label, g.term(eng, st, ye), wy))
         # pruning: after the last shrink nothing may stay beyond the new bounds
         shrink_l = eng.prove_cmp(st, 'lt', ln, l0) is True
         shrink_c = eng.prove_cmp(st, 'lt', cn, c0) is True
@@ -749,6 +762,8 @@ def run_c16(ctx, chk):
                  span=body.span, what='; '.join(bad_same[:2]))
     chk.instance('R-RESIZE', short(f), 'region reset and new geometry installed', n_change > 0 and not bad_m, detail='; '.join(bad_m[:2]) or '%d size-changing paths' % n_change,
                  span=body.span, what='; '.join(bad_m[:2]))
+    chk.instance('R-RESIZE', short(f), 'the cursor ends on a cell of the new screen', n_change > 0 and not bad_c, detail='; '.join(bad_c[:2]) or '%d size-changing paths' % n_change,
+                 span=body.span, what='; '.join(bad_c[:2]))
     chk.instance('R-DIRTY', short(f), 'every row of the new geometry marked', n_change > 0 and not bad_d, detail='unmarked: %s' % bad_d[:2], span=body.span,
                  what='resize does not mark all rows dirty on %s' % bad_d[:1])
     chk.instance('R-GRID', short(f), 'rows / cells beyond the new bounds are pruned on a shrink', n_change > 0 and not bad_p, detail='; '.join(bad_p[:3]) or 'retain(key < new bound) on every shrinking path',
@@ -989,6 +1004,12 @@ def run_c04(ctx, chk):
         ok_row = isinstance(row, NumV) and eng.prove_cmp(st, 'eq', row, cy) is True
         ok_col = isinstance(col, NumV) and (eng.prove_cmp(st, 'eq', col, cx) is True or eng.prove_cmp(st, 'eq', col, NumV(cx.sym, cx.k + 1, 'u32')) is True)
         ok_val = isinstance(v, StructV) and isinstance(pv, tuple) and pv[0] == 'literal' and pv[1] == 'screen::CharOpts::clone_with_data'
+        if not ok_val and isinstance(v, StructV):
+            # any other construction is fine as long as every rendition field equals the cursor's
+            cur = get(eng, st, 'cursor', 'attr')
+            ok_val = isinstance(cur, StructV) and all(
+                v.fields.get(k_) is not None and cur.fields.get(k_) is not None and g.same_value(eng, st, v.fields[k_], cur.fields[k_])
+                for k_ in ('fg', 'bg') + g.FLAGS)
         k = (short(draw), 'cell store @%s: cursor row, cursor column (+1 for the placeholder), cursor rendition' % site_ord(prog, e))
         a = agg.setdefault(k, dict(ok=True, why='', span=e['span'], n=0))
         a['n'] += 1
@@ -1023,6 +1044,19 @@ def run_c04(ctx, chk):
             n_irm += 1
             if not ich or ich[0] > stores[0]:
                 bad.append('insert mode: the character is stored before the rest of the row is shifted')
+            else:
+                # the shift must happen where the character is then stored: the cursor does not move
+                # between the call that shifts and the store
+                calls = [i for i, ev in enumerate(evs) if ev[0] == 'call' and ev[1] == ep('insert_characters') and i < stores[0]]
+                start = calls[-1] if calls else ich[0]
+                # writes inside insert_characters itself are not between the shift and the store
+                depth_end = start
+                for i in range(start + 1, stores[0]):
+                    ev = evs[i]
+                    if ev[0] == 'w' and ev[1] and ev[1][0] == 'cursor' and len(ev[1]) > 1 and ev[1][1] in ('x', 'y'):
+                        bad.append('insert mode: the cursor moves (%s) between shifting the row and storing the character, so the shift happened at another position'
+                                   % '.'.join(ev[1][:2]))
+                        break
         if irm is False and ich:
             bad.append('replace mode: the row is shifted although IRM is off')
     chk.instance('R-MUST', short(draw), 'IRM on: shift, then store; IRM off: no shift', n_irm > 0 and not bad, detail='; '.join(sorted(set(bad))) or '%d insert-mode iterations' % n_irm,
